@@ -128,6 +128,15 @@ def _remap(node, offset, subst):
     return out
 
 
+def owner_of(facts, path, depth=4):
+    """The function an audited MIR site of `path` is accounted to: its single calling function when `path` is an absorbed helper."""
+    ab = getattr(facts, "absorbed", {})
+    while depth > 0 and path in ab and len(ab[path]) == 1:
+        path = ab[path][0]
+        depth -= 1
+    return path
+
+
 def absorb(facts):
     known = load_known()
     facts.absorbed = {}
@@ -136,7 +145,8 @@ def absorb(facts):
         return
     cand = {}
     for f in facts.fn_list:
-        if f.kind not in ("Fn", "AssocFn") or f.hir is None or f.trait or f.vis != "priv":
+        # (a `fn` item nested in a trait method carries the trait of its parent in the facts; only associated functions are trait items)
+        if f.kind not in ("Fn", "AssocFn") or f.hir is None or (f.trait and f.kind == "AssocFn") or f.vis != "priv":
             continue
         if f.path in known:
             continue
